@@ -575,17 +575,17 @@ type firstUseOp struct {
 }
 
 var firstUseOps = []firstUseOp{
-	{"MsgType(nil pointer)", func(n, m any) { csproto.MsgType(n) }},
-	{"Equal(nil pointer, nil pointer)", func(n, m any) { csproto.Equal(n, n) }},
-	{"Clone(nil pointer)", func(n, m any) { csproto.Clone(n) }},
-	{"Size(nil pointer)", func(n, m any) { csproto.Size(n) }},
-	{"Marshal(nil pointer)", func(n, m any) { _, _ = csproto.Marshal(n) }},
-	{"MarshalText(nil pointer)", func(n, m any) { _, _ = csproto.MarshalText(n) }},
-	{"MsgType(message)", func(n, m any) { csproto.MsgType(m) }},
-	{"Equal(message, nil pointer)", func(n, m any) { csproto.Equal(m, n) }},
-	{"JSONMarshaler(nil pointer)", func(n, m any) { _, _ = csproto.JSONMarshaler(n).MarshalJSON() }},
-	{"ClearAllExtensions(nil pointer)", func(n, m any) { csproto.ClearAllExtensions(n) }},
-	{"Unmarshal(into nil pointer)", func(n, m any) { _ = csproto.Unmarshal([]byte{}, n) }},
+	{"MsgType-of-nil-pointer", func(n, m any) { csproto.MsgType(n) }},
+	{"Equal-of-nil-pointers", func(n, m any) { csproto.Equal(n, n) }},
+	{"Clone-of-nil-pointer", func(n, m any) { csproto.Clone(n) }},
+	{"Size-of-nil-pointer", func(n, m any) { csproto.Size(n) }},
+	{"Marshal-of-nil-pointer", func(n, m any) { _, _ = csproto.Marshal(n) }},
+	{"MarshalText-of-nil-pointer", func(n, m any) { _, _ = csproto.MarshalText(n) }},
+	{"MsgType-of-message", func(n, m any) { csproto.MsgType(m) }},
+	{"Equal-of-message-and-nil-pointer", func(n, m any) { csproto.Equal(m, n) }},
+	{"JSONMarshaler-of-nil-pointer", func(n, m any) { _, _ = csproto.JSONMarshaler(n).MarshalJSON() }},
+	{"ClearAllExtensions-of-nil-pointer", func(n, m any) { csproto.ClearAllExtensions(n) }},
+	{"Unmarshal-into-nil-pointer", func(n, m any) { _ = csproto.Unmarshal([]byte{}, n) }},
 }
 
 func firstUseNames() []string {
